@@ -257,10 +257,15 @@ def correspond(check, n_cases=None, flavor="asan"):
             if ndiff <= 5:
                 fa, fb = a.split(" "), b.split(" ")
                 where = next((j for j in range(min(len(fa), len(fb))) if fa[j] != fb[j]), min(len(fa), len(fb)))
+                tag = fa[where - 1] if 0 < where <= len(fa) else "?"
+                if where < len(fa) and ":" in fa[where]:
+                    tag = "D#%d(v=%x)" % (where - 10, vs[where - 10]) if 0 <= where - 10 < len(vs) else "D"
+                ea = fa[where].split(",") if where < len(fa) else []
+                eb = fb[where].split(",") if where < len(fb) else []
+                idx = next((j for j in range(min(len(ea), len(eb))) if ea[j] != eb[j]), min(len(ea), len(eb)))
                 check.broken.append(Broken("correspondence",
                                            "make_tree/decode model vs implementation differ on alpha=%d lens=%s" % (n, ",".join(map(str, lens))[:200]),
-                                           "first differing field %d: impl=%s model=%s" % (where, " ".join(fa[where - 1:where + 1])[:300],
-                                                                                            " ".join(fb[where - 1:where + 1])[:300])))
+                                           "field %s element %d: impl=%s model=%s" % (tag, idx, ",".join(ea[idx:idx + 3]), ",".join(eb[idx:idx + 3]))))
         want = {"complete": "V 2 ", "incomplete": "V 11 ", "over": "V 10 "}[kind]
         if not a.startswith(want) and ndiff <= 5:
             check.broken.append(Broken("correspondence", "verdict of make_tree() is not the Kraft verdict on alpha=%d lens=%s"
